@@ -46,7 +46,7 @@ P = {
             "chunk sizes: n is just past the first CR LF, Partial means no CR LF. For every backend, entry point, config, capacity, buffer.",
             "Coq proof (segment invariant over the reference header grammar + refinement), + extracted linear-scan oracle on the implementation"),
     "C05": ("proof",
-            "Theorems request_hygiene, response_hygiene, head_clean_request/response/headers, strs_are_utf8, value_shape_spelled (Thm/C05.v): "
+            "Theorems request_hygiene, response_hygiene, head_clean_request/response/headers, strs_are_utf8, value_shape_spelled, folds_in_values, fold_clause_spelled (Thm/C05.v): "
             "method/name tokens non-empty tchar, target non-empty uri-char and valid UTF-8, version 0/1, code < 1000, reason ASCII reason-chars or "
             "the empty fallback, values class-clean and trimmed at both ends, consumed head free of NUL and of CR not followed by LF. PARTIAL: for "
             "folded values the clause 'CRLF/LF only directly before SP/HTAB' is carried by the extracted oracle check_C05 + correspondence, not by a theorem.",
